@@ -53,7 +53,13 @@ pub const INFO: Info = Info {
            (or omits them), stream `length-attr` writes 0, off-by-some, u64::MAX, 9999999999999999999, 2^63, 2^63-1, \
            2^64, a 26-digit number, negative and non-numeric texts on <spectrum> and/or every <binaryDataArray> of \
            documents with non-empty arrays (nothing between 2^30 and 2^62, which a pre-sizing reader might really \
-           allocate): the reply must be the one without the attribute. mzmlraw: truncations, \
+           allocate): the reply must be the one without the attribute. `b64`: for every array encoding (32/64 bit x zlib/plain) and both padding lengths, base64 texts with the \
+           padding stripped (all / one), 1-3 trailing characters cut, a character inserted / deleted, spaces, MIME line \
+           breaks, pretty-printing white space, tab/CRLF, foreign and URL-safe characters, `=` in the middle or in \
+           excess, `<binary></binary>` vs `<binary/>` vs white space only - the request states what base64 0.13 and \
+           zlib make of the text (checked against the crates by the harness and against the model's b64decode by the \
+           driver), accepted texts must yield the model's values; mzmlraw: EVERY truncation offset of a small \
+           two-spectrum document, truncations, \
            byte flips, deletions, duplications, insertions and concatenations of rendered documents. \
            Non-trivial = at least two events inside a <spectrum>; distinct by request line",
     serial: false,
@@ -85,6 +91,8 @@ enum Payload {
     Empty,
     Bad,
     Data(Vec<u8>, Option<Vec<u8>>),
+    /// the text verbatim, what base64 makes of it, and what zlib makes of that
+    Raw(String, Option<Vec<u8>>, Option<Vec<u8>>),
 }
 
 #[derive(Clone, Debug, PartialEq)]
@@ -250,6 +258,19 @@ fn write_events(o: &mut Out, evs: &[Ev]) {
                             }
                         }
                     }
+                    Payload::Raw(t, d, i) => {
+                        o.raw("x").s(t);
+                        for x in [d, i] {
+                            match x {
+                                None => {
+                                    o.n(0);
+                                }
+                                Some(b) => {
+                                    o.n(1).bytes(b);
+                                }
+                            }
+                        }
+                    }
                 }
             }
         }
@@ -294,6 +315,12 @@ fn read_events(t: &mut Toks) -> Option<Vec<Ev>> {
                     let w = t.bytes()?;
                     let i = t.opt(|t| t.bytes())?;
                     Ev::Text(Payload::Data(w, i))
+                }
+                "x" => {
+                    let text = t.string()?;
+                    let d = t.opt(|t| t.bytes())?;
+                    let i = t.opt(|t| t.bytes())?;
+                    Ev::Text(Payload::Raw(text, d, i))
                 }
                 _ => return None,
             },
@@ -555,6 +582,7 @@ fn render(style: u64, evs: &[Ev]) -> Vec<u8> {
                 Payload::Empty => {}
                 Payload::Bad => s.push_str(*r.pick(&["!!!not base64!!!", "A", "AAAA=A==", "é"])),
                 Payload::Data(w, _) => s.push_str(&base64::encode(w)),
+                Payload::Raw(t, _, _) => s.push_str(t),
             },
         }
     }
@@ -741,8 +769,17 @@ pub fn exec(op: &str, t: &mut Toks) -> Option<String> {
                             return None;
                         }
                     }
+                    if let Payload::Raw(t, d, i) = p {
+                        // the request's claims are checked against the real crates
+                        if t.contains(['&', '<']) || base64::decode(t).ok() != *d {
+                            return None;
+                        }
+                        if d.as_ref().and_then(|b| inflate(b)) != *i {
+                            return None;
+                        }
+                    }
                 }
-                prev_text = matches!(e, Ev::Text(p) if *p != Payload::Empty);
+                prev_text = matches!(e, Ev::Text(p) if *p != Payload::Empty && *p != Payload::Raw(String::new(), Some(vec![]), None));
             }
             let doc = render(style, &evs);
             if std::env::var_os("VERIF_C16_DUMP").is_some() {
@@ -1410,6 +1447,99 @@ fn with_len_attrs(evs: &[Ev], r: &mut Rng, sp_pct: u32, bda_pct: u32, only: Opti
     out
 }
 
+/// a `<binary>` text given verbatim, with what the base64 crate and zlib make of it
+fn raw_payload(text: String) -> Payload {
+    let d = base64::decode(&text).ok();
+    let i = d.as_ref().and_then(|b| inflate(b));
+    Payload::Raw(text, d, i)
+}
+
+const B64_KINDS: [&str; 17] = [
+    "b64:no-padding", "b64:one-pad-less", "b64:cut-1", "b64:cut-2", "b64:cut-3", "b64:unpadded-cut-1", "b64:insert",
+    "b64:delete", "b64:space", "b64:mime-line-breaks", "b64:pretty-printed", "b64:foreign-char", "b64:trailing-newline",
+    "b64:url-safe", "b64:pad-in-middle", "b64:extra-pad", "b64:tab-crlf",
+];
+
+/// corruptions of a correctly padded base64 text that real files and truncations produce
+fn mutate_b64(r: &mut Rng, text: &str, kind: usize) -> String {
+    let mut t: Vec<char> = text.chars().collect();
+    let unpadded: String = text.trim_end_matches('=').to_string();
+    let mid = if t.len() > 2 { 1 + r.below(t.len() - 2) } else { 0 };
+    match kind {
+        0 => unpadded,
+        1 => {
+            t.pop();
+            t.into_iter().collect()
+        }
+        2 | 3 | 4 => {
+            for _ in 0..(kind - 1).min(t.len()) {
+                t.pop();
+            }
+            t.into_iter().collect()
+        }
+        5 => {
+            let mut u: Vec<char> = unpadded.chars().collect();
+            u.pop();
+            u.into_iter().collect()
+        }
+        6 => {
+            t.insert(mid, *r.pick(&['A', 'z', '0', '+', '/']));
+            t.into_iter().collect()
+        }
+        7 => {
+            if !t.is_empty() {
+                t.remove(mid.min(t.len() - 1));
+            }
+            t.into_iter().collect()
+        }
+        8 => {
+            t.insert(mid, ' ');
+            t.into_iter().collect()
+        }
+        9 => {
+            let mut o = String::new();
+            for (i, c) in t.iter().enumerate() {
+                if i > 0 && i % 8 == 0 {
+                    o.push('\n');
+                }
+                o.push(*c);
+            }
+            if t.len() <= 8 {
+                o.push('\n');
+            }
+            o
+        }
+        10 => format!("\n          {text}\n        "),
+        11 => {
+            if !t.is_empty() {
+                let k = mid.min(t.len() - 1);
+                t[k] = *r.pick(&['*', '-', '_', '.', '!', '\u{e9}']);
+            }
+            t.into_iter().collect()
+        }
+        12 => format!("{text}\n"),
+        13 => {
+            let u = text.replace('+', "-").replace('/', "_");
+            if u == text {
+                format!("-{}", &text[1.min(text.len())..])
+            } else {
+                u
+            }
+        }
+        14 => {
+            t.insert(mid, '=');
+            t.into_iter().collect()
+        }
+        15 => format!("{text}="),
+        _ => {
+            t.insert(mid, '\t');
+            let mut o: String = t.into_iter().collect();
+            o.push_str("\r\n");
+            o
+        }
+    }
+}
+
 fn nontrivial(evs: &[Ev]) -> bool {
     evs.len() >= 4
 }
@@ -1633,6 +1763,81 @@ pub fn gen(rng: &mut Rng, tier: Tier, emit: &mut dyn FnMut(Case)) {
         emit(Case::new(request(style_for(rng, 0), filter, sn, &evs)).tag("length-attr").tag("length-attr:mixed"));
     }
 
+    // --- C5: base64 texts that are not the canonical padded encoding (lost padding, cut, line breaks, foreign
+    //         characters), for every array encoding; the values must be the model's, the outcome never a panic
+    for &is64 in &[false, true] {
+        for &zlib in &[false, true] {
+            for pad in 1..=2usize {
+                // bytes whose base64 text ends in `pad` padding characters
+                let want = if pad == 2 { 1 } else { 2 };
+                let mut bytes = Vec::new();
+                let mut wire = Vec::new();
+                for attempt in 0..400 {
+                    bytes.clear();
+                    let n = 1 + (attempt % 4);
+                    for _ in 0..n {
+                        bytes.extend(rand_value_bytes(rng, is64));
+                    }
+                    wire = if zlib { deflate(&bytes) } else { bytes.clone() };
+                    if wire.len() % 3 == want {
+                        break;
+                    }
+                }
+                if wire.len() % 3 != want {
+                    continue;
+                }
+                let text = base64::encode(&wire);
+                for (kind, tag) in B64_KINDS.iter().enumerate() {
+                    for rep in 0..(if quick { 1 } else { 8 }) {
+                        let t2 = mutate_b64(rng, &text, kind);
+                        if t2.contains(['&', '<']) {
+                            continue;
+                        }
+                        let mk = |k: usize, payload: Payload| Arr {
+                            params: vec![flag(k), flag(if is64 { F64 } else { F32 }), flag(if zlib { ZLIB } else { NOCOMP })],
+                            payload,
+                        };
+                        let mut a = El { id: "a".into(), ..Default::default() };
+                        a.params.push(p(LEVEL, Val::N(2)));
+                        a.arrays.push(mk(MZ, raw_payload(t2)));
+                        a.arrays.push(mk(INT, mk_payload(bytes.clone(), zlib)));
+                        let mut b = gen_el(rng, 1, &Opts { level: 2, noise_cv: 0, rich: Some(false) });
+                        b.params = vec![p(LEVEL, Val::N(2))];
+                        b.arrays.push(mk(INT, raw_payload(text.clone())));
+                        let evs = doc_events(&[a, b], rng, if rep % 2 == 0 { 0 } else { 15 });
+                        emit(Case::new(request(style_for(rng, 0), None, None, &evs)).tag("b64").tag(tag));
+                    }
+                }
+            }
+            // `<binary></binary>` vs `<binary/>` vs white space only
+            for variant in 0..3 {
+                let mut evs = vec![Ev::Start(Tag::Sp, Some("e".into()), None), Ev::Cv(LEVEL, Val::N(2), 'a')];
+                evs.push(Ev::Start(Tag::Bda, None, None));
+                evs.push(Ev::Cv(MZ, Val::Absent, 'a'));
+                evs.push(Ev::Cv(if is64 { F64 } else { F32 }, Val::Absent, 'a'));
+                evs.push(Ev::Cv(if zlib { ZLIB } else { NOCOMP }, Val::Absent, 'a'));
+                match variant {
+                    0 => {
+                        evs.push(Ev::Start(Tag::Bin, None, None));
+                        evs.push(Ev::Text(Payload::Empty));
+                        evs.push(Ev::End(Tag::Bin));
+                    }
+                    1 => evs.push(Ev::EmptyTag(Tag::Bin)),
+                    _ => {
+                        evs.push(Ev::Start(Tag::Bin, None, None));
+                        evs.push(Ev::Text(raw_payload("\n      ".into())));
+                        evs.push(Ev::End(Tag::Bin));
+                    }
+                }
+                evs.push(Ev::End(Tag::Bda));
+                evs.push(Ev::End(Tag::Sp));
+                emit(Case::new(request(style_for(rng, 0), None, None, &evs))
+                    .tag("b64")
+                    .tag(["b64:empty-element-pair", "b64:empty-element-tag", "b64:white-space-only"][variant]));
+            }
+        }
+    }
+
     // --- D: TIC = 0 (finding C16-tic-zero, repaired): the element is read as encoded, wherever the param stands
     for i in 0..(if quick { 72 } else { 1440 }) {
         let nsp = 1 + rng.below(3);
@@ -1768,5 +1973,34 @@ pub fn gen(rng: &mut Rng, tier: Tier, emit: &mut dyn FnMut(Case)) {
         }
         o.bytes(&d);
         emit(Case::new(o.finish()).tag("raw-mutation").tag(tag));
+    }
+    // --- H2: EVERY truncation offset of a small two-spectrum document (padded 32-bit, zlib 64-bit, unpadded-length
+    //          payloads): a document cut inside a base64 text hands the decoder a text of any length mod 4
+    {
+        let f32s = |xs: &[f32]| -> Vec<u8> { xs.iter().flat_map(|x| x.to_le_bytes()).collect() };
+        let f64s = |xs: &[f64]| -> Vec<u8> { xs.iter().flat_map(|x| x.to_le_bytes()).collect() };
+        let bda = |kind: &str, dtype: &str, comp: &str, wire: &[u8]| -> String {
+            format!(
+                "<binaryDataArray encodedLength=\"{}\"><cvParam accession=\"{kind}\"/><cvParam accession=\"{dtype}\"/>\
+                 <cvParam accession=\"{comp}\"/><binary>{}</binary></binaryDataArray>",
+                (wire.len() + 2) / 3 * 4,
+                base64::encode(wire)
+            )
+        };
+        let doc = format!(
+            "<mzML><run><spectrumList><spectrum id=\"a\" defaultArrayLength=\"2\"><cvParam accession=\"MS:1000511\" value=\"2\"/>\
+             <binaryDataArrayList>{}{}</binaryDataArrayList></spectrum><spectrum id=\"b\"><cvParam accession=\"MS:1000511\" \
+             value=\"1\"/><binaryDataArrayList>{}{}</binaryDataArrayList></spectrum></spectrumList></run></mzML>",
+            bda("MS:1000514", "MS:1000521", "MS:1000576", &f32s(&[100.5, 200.25])),
+            bda("MS:1000515", "MS:1000523", "MS:1000574", &deflate(&f64s(&[8.0, 10.0]))),
+            bda("MS:1000514", "MS:1000523", "MS:1000576", &f64s(&[300.125])),
+            bda("MS:1000515", "MS:1000521", "MS:1000574", &deflate(&f32s(&[1.0, 2.0, 3.0]))),
+        );
+        let d = doc.as_bytes();
+        for cut in 0..=d.len() {
+            let mut o = Out::new();
+            o.raw("mzmlraw").n(0).n(0).bytes(&d[..cut]);
+            emit(Case::new(o.finish()).tag("raw-mutation").tag("raw:truncate-exhaustive").nontrivial(cut > 40));
+        }
     }
 }
